@@ -81,7 +81,7 @@ func loadKnown() []KnownFinding {
 }
 
 func harnessFiles() []string {
-	files, _ := filepath.Glob(filepath.Join(verifDir, "harness", "*.go"))
+	files, _ := filepath.Glob(filepath.Join(envOr("VERIF_HARNESS", filepath.Join(verifDir, "harness")), "*.go"))
 	sort.Strings(files)
 	return files
 }
@@ -105,7 +105,10 @@ var lockTypeRes = map[string][]struct {
 	re   *regexp.Regexp
 	repl string
 }{
-	"association.go": {{regexp.MustCompile(`(?m)^(\tlock\s+)sync\.RWMutex$`), "${1}vLkAssoc"}},
+	"association.go": {
+		{regexp.MustCompile(`(?m)^(\tlock\s+)sync\.RWMutex$`), "${1}vLkAssoc"},
+		{regexp.MustCompile(`(?m)^(\ttimerMu\s+)sync\.Mutex$`), "${1}vLkTimer"},
+	},
 	"stream.go": {
 		{regexp.MustCompile(`(?m)^(\tlock\s+)sync\.RWMutex$`), "${1}vLkStream"},
 		{regexp.MustCompile(`(?m)^(\twriteLock\s+)sync\.Mutex$`), "${1}vLkWrite"},
